@@ -376,3 +376,46 @@ func PlantCaptiveFlip(t *rapid.T, cfg *Config) bool {
 	cfg.Regs[rapid.SampledFrom(cands).Draw(t, "flipToScoped")].Life = Scoped
 	return true
 }
+
+// PlantSliceNamed: a group field over I0 of some long-lived consumer gets a
+// name tag as well, and a SCOPED service of the field's own type []I0 is
+// registered under exactly that name. The field is a dependency on the group
+// (the group tag wins), so nothing becomes invalid: the consumer must receive
+// the group's members - never the scoped slice-typed service.
+func PlantSliceNamed(t *rapid.T, cfg *Config) bool {
+	type site struct{ reg, dep int }
+	var sites []site
+	for i := range cfg.Regs {
+		r := &cfg.Regs[i]
+		if r.Form == FormInstance || r.Kind != KindMakeFunc || r.Variadic {
+			continue
+		}
+		for j, d := range r.Deps {
+			if d.T == TI0 && d.Group != "" && d.Builtin == 0 && !d.Ignored {
+				sites = append(sites, site{i, j})
+			}
+		}
+	}
+	if len(sites) == 0 {
+		return false
+	}
+	st := rapid.SampledFrom(sites).Draw(t, "sliceNamedSite")
+	name := "slnamed"
+	for _, r := range cfg.Regs {
+		for _, p := range r.AllProvides() {
+			if p.Ident == (Ident{T: TSl, Key: name}) {
+				return false
+			}
+		}
+	}
+	cfg.Regs[st.reg].Deps[st.dep].Key = name
+	cfg.Regs[st.reg].UseIn = true
+	nextID := 0
+	for _, r := range cfg.Regs {
+		if r.ID >= nextID {
+			nextID = r.ID + 1
+		}
+	}
+	cfg.Regs = append(cfg.Regs, Reg{ID: nextID, Life: Scoped, Form: FormPlain, Outs: []OutSpec{{T: TSl, Impl: NumD}}, Name: name})
+	return true
+}
